@@ -26,11 +26,19 @@ import (
 	"gkvverif/explore"
 )
 
-const (
+var (
 	verifDir  = "/verif"
 	engineDir = "/verif/engine"
-	repoDir   = "/repo"
 )
+
+const repoDir = "/repo"
+
+func init() {
+	if d := os.Getenv("VERIF_DIR"); d != "" {
+		verifDir = d
+		engineDir = filepath.Join(d, "engine")
+	}
+}
 
 type ProfileResult struct {
 	Profile     string
@@ -448,7 +456,7 @@ func main() {
 	profInfo := map[string]interface{}{}
 	for _, n := range order {
 		a := aggs[n]
-		totalExec += a.exec
+		totalExec += a.exec + a.extra["crash_images"]
 		totalTrans += a.trans
 		totalNT += a.nontrivial
 		for h := range a.states {
